@@ -118,8 +118,13 @@ def scenario(draw) -> Dict[str, Any]:
                 events.append(ev)
     jitter = {'seed': draw(st.integers(0, 10**6))} if draw(st.integers(0, 2)) else \
         {'explicit': draw(st.lists(st.sampled_from([0, 0, 100, 100, 50]), min_size=1, max_size=6))}
+    pre_updates = []
+    if draw(st.integers(0, 3)) == 0:
+        # the registry reached its state through an update (async_update_service with a fresh ServiceInfo) after registration
+        k_ = draw(st.integers(0, n - 1))
+        pre_updates.append({'svc': k_, 'set': {'port': 9000 + k_}})
     return {'jitter': jitter, 'socks': 'v4', 'services': services, 'settle_ms': draw(st.sampled_from([1500, 3000])),
-            'events': events, 'tail_ms': 2500}
+            'events': events, 'tail_ms': 2500, 'pre_updates': pre_updates}
 
 
 def strategy(tier: str):
